@@ -359,7 +359,7 @@ def work(task):
             allowed, preferred = expected(table, flags, cfg)
             nsol = len(allowed)
             bucket = "0" if nsol == 0 else "1" if nsol == 1 else "n"
-            for k in (f"{sh}|{bucket}", f"{'pref-sat' if preferred in allowed else 'pref-unsat'}|{bucket}"):
+            for k in (f"{sh} nsol={bucket}", f"{'pref-sat' if preferred in allowed else 'pref-unsat'} nsol={bucket}"):
                 classes[k] = classes.get(k, 0) + 1
             ok = len(got) == len(allowed) and set(got) == allowed and (preferred not in allowed or got[0] == preferred)
             if not ok:
@@ -372,10 +372,10 @@ def work(task):
 def _fold(classes):
     out = {}
     for k, v in classes.items():
-        parts = k.split("|")
+        parts = k.rsplit(" ", 1)
         if parts[0].count("+") >= 1:
             parts[0] = ("cond-in-choice+" if "cond-in-choice" in parts[0] else "") + "mixed"
-        kk = "|".join(parts)
+        kk = " ".join(parts)
         out[kk] = out.get(kk, 0) + v
     return out
 
